@@ -3,6 +3,7 @@
 from __future__ import annotations
 
 import hashlib
+import os
 
 from checks.common import Reporter, confirm_minimise_report, default_workers, run_regressions
 from simkit.core import mark_cover, reach_report, Evidence, log, merge_counts, run_seed
@@ -33,7 +34,12 @@ def main(tier: str, seed: int, opts) -> int:
     jobs = [{"engine": ENGINE, "func": FUNC, "limit_s": 300,
              "args": {"seed": run_seed(seed, PROP, tier, i), "cfg": {"p_dot": cfg["p_dot_permille"] / 1000.0}}} for i in range(cfg["sessions"])]
     log(f"[C15] VERIF_SEED={seed} tier={tier} sessions={len(jobs)}")
-    with ZygotePool(workers=default_workers(), preload="worlds.viewworld") as pool:
+    # an eighth of the simulated processes run with assert statements compiled away (python -O)
+    z = os.environ.get("VERIF_ZYGOTE_HASHSEED", "0")
+    configs = [z] * 7 + [f"{z}@optimize"]
+    for i, j in enumerate(jobs):
+        j["hashseed"] = configs[i % 8]
+    with ZygotePool(workers=default_workers(), hashseeds=configs, preload="worlds.viewworld") as pool:
         n_reg = run_regressions(rep, pool, PROP)
         mark_cover(jobs)
         results = [unwrap(r, "C15 session") for r in pool.map(jobs, progress="C15")]
@@ -61,7 +67,7 @@ def main(tier: str, seed: int, opts) -> int:
                 if key in seen or len(seen) >= 4:
                     continue
                 seen.add(key)
-                confirm_minimise_report(rep, pool, ENGINE, r["case"], r, f"{seed}-{i}", candidates=viewworld.candidates, func=FUNC,
+                confirm_minimise_report(rep, pool, ENGINE, r["case"], r, f"{seed}-{i}", candidates=viewworld.candidates, func=FUNC, hashseed=jobs[i]["hashseed"],
                                         known_keys=known_keys, meta={"verif_seed": seed, "run_index": i, "tier": tier},
                                         budget_evals=600, budget_s=180, limit_s=300)
         s0 = unwrap(pool.call({"engine": ENGINE, "func": FUNC, "args": {"seed": run_seed(seed, PROP, tier, 0), "return_case": True, "cfg": {"max_builds": 4}}}))
@@ -86,7 +92,9 @@ def main(tier: str, seed: int, opts) -> int:
         "counters": stats,
         "fault_kinds_fired": {"construction_failed_part_way_after_ids_were_consumed": stats.get("failed_builds", 0),
                               "of_which_killed_by_injected_exception": stats.get("interrupted_builds", 0),
-                              "graph_built_from_a_worker_thread": stats.get("builds_in_worker_thread", 0)},
+                              "graph_built_from_a_worker_thread": stats.get("builds_in_worker_thread", 0),
+                              "first_to_string_killed_then_repeated": stats.get("to_string_interrupted", 0),
+                              "sessions_in_a_python_O_process": sum(1 for j in jobs if "@optimize" in str(j.get("hashseed")))},
         "distinct_abstract_histories": len(hashes),
         "regression_replays_run": n_reg,
         "anchored_code_reach": reach_report(PROP, cover_hits),
